@@ -800,7 +800,8 @@ class Gen:
             if k < 0.25 and natural_end > 0:
                 size_attr = natural_end - 1
                 miss_here = "size one too small"
-            elif k < 0.45 and not packed and (eff_align or 1) > 1:
+            elif k < 0.45 and not packed and (eff_align or 1) > 1 and nregions > 0:
+                # (a type without any region is different: the padding becomes its sole member, alignment 1 -- legitimately accepted)
                 size_attr = total + rng.randint(1, eff_align - 1)
                 miss_here = "size not a multiple of the alignment"
             elif k < 0.7 and not packed:
